@@ -159,8 +159,8 @@ def equiv(a, b, base_b):
 def cumulative_family(fast, slow, cum_k, cum_head, range_sessions):
     """Is `slow` the shortcut's note plus ONLY what the cumulative slow path adds?  (known finding
     slow-path-cumulative-lines): every (path, session, line) of the shortcut's note is in the
-    slow note; every extra one is an AI line of the range present at this commit or at the
-    original head; extra sessions belong to the range; common prompt records differ in the
+    slow note; every extra one is an AI line of the range present at this commit; extra sessions
+    belong to the range; common prompt records differ in the
     recomputed counters only."""
     (fa, fm), (sa, sm) = note_view(fast), note_view(slow)
     ft = {(p, h, l) for (p, h), ls in fa.items() for l in ls}
@@ -432,17 +432,11 @@ def judge(res, obs, driver_reqs):
     if pre and took and append_only and len(obs["ghost"]) == len(fast["news"]) == len(slow["news"]):
         tags.append("e2e:line-model=compared")
         gl = lambda g: [{"path": f, "lines": [[l[1], l[2]] for l in ls]} for f, ls in sorted(g.items())]
-        prev, changed = {f: v for f, v in obs["ghost_base"].items()}, set()
         for k, g in enumerate(obs["ghost"]):
-            for f, ls in g.items():
-                if [l[0] for l in ls] != prev.get(f):
-                    changed.add(f)
-                prev[f] = [l[0] for l in ls]
             def trip(t):
                 pn = e2e.parse_note(t) if t else None
                 return sorted([p, h, l] for p, hs in (pn["files"].items() if pn else []) for h, ls in hs.items() for l in set(ls))
-            driver_reqs.append(({"op": "c15_lines", "rebase": rebase, "k": obs["labels"][k], "tree": gl(g), "head": gl(obs["ghost"][-1]),
-                                 "changed": sorted(changed)},
+            driver_reqs.append(({"op": "c15_lines", "k": obs["labels"][k], "tree": gl(g)},
                                 ("lines", (trip(fast["notes"].get(fast["news"][k])), trip(slow["notes"].get(slow["news"][k]))),
                                  dict(wit, index=k))))
     else:
@@ -452,7 +446,7 @@ def judge(res, obs, driver_reqs):
         res.oracle_failure("twin-histories-differ", wit, "the rewritten histories differ between the twins")
         res.tag(tags); return
     n_equiv = n_cum = n_mis = 0
-    head_cum = set(map(tuple, obs["ghost_cum"][-1])) if obs["ghost_cum"] else set()
+    head_cum = set()    # head-state lines of untouched files are no longer emitted (/repo 4fd233ae, efdc0647)
     for k, (nf, ns) in enumerate(zip(fast["news"], slow["news"])):
         tf, ts = fast["notes"].get(nf), slow["notes"].get(ns)
         if tf is None and ts is None:
